@@ -28,6 +28,7 @@ class ProbeWorld(World):
         self.count = {}
         self.recording = True
         self.handler_steps = 0   # interpreter steps spent inside handlers (not traversal work)
+        self.class_tags = {}     # walker class -> tag, for walkers that a service creates per call
         self.wrapping = False    # only the handlers collected by Walker.__init__ are probed: direct
                                  # handler-to-handler calls are not traversal steps
 
@@ -38,7 +39,7 @@ class ProbeWorld(World):
             return fn
 
         def probe(i, a, k):
-            tag = getattr(bound, "probe_tag", None)
+            tag = getattr(bound, "probe_tag", None) or world.class_tags.get(getattr(bound, "cls", None))
             if tag is not None and world.recording and a and world.is_node(a[0]):
                 sig = tuple(sorted((kk, world._sig(v)) for kk, v in k.items() if kk != "args"))
                 world.calls.append((tag, h.name, a[0], sig))
@@ -332,6 +333,90 @@ def _tower_job(job):
         out["service_calls"].append(ok[0].detail[2])
         out["nodes"].append(ok[0].detail[3])
     return out
+
+
+# ---------------------------------------------------------------------------------------------- printing services
+PRINT_SERVICES = {
+    "serialize": ("pysmt.printers.HRPrinter", lambda w, it, f: it.call(it.getattr(f, "serialize"), [])),
+    "str": ("pysmt.printers.HRPrinter", lambda w, it, f: w.to_str(it, f)[1]),
+    "to_smtlib (tree)": ("pysmt.smtlib.printers.SmtPrinter",
+                         lambda w, it, f: it.call(it.module_global(w.repo.modules["pysmt.smtlib.printers"], "to_smtlib"), [f], {"daggify": False})),
+    "to_smtlib (let-DAG)": ("pysmt.smtlib.printers.SmtDagPrinter",
+                            lambda w, it, f: it.call(it.module_global(w.repo.modules["pysmt.smtlib.printers"], "to_smtlib"), [f], {"daggify": True})),
+}
+
+
+def _print_failure_job(job):
+    """A printing service of the environment whose printer fails at the k-th handler call (every k): the next texts
+    - of another formula and of the same formula - are the ones a fresh environment prints."""
+    svc, shape_t, second_t = job
+    cls, fn = PRINT_SERVICES[svc]
+    shape = Shape(shape_t)
+    out = {"svc": svc, "shape": repr(shape), "kind": "ok", "notes": [], "injections": 0, "bad": []}
+
+    def call_clean(w, it, f):
+        w.wrapping = True
+        w.class_tags = {cls: "P"}
+        g = proc.build_shape(w, second_t)
+        t1 = fn(w, it, f)
+        n = w.count.get("P", 0)
+        return (n, t1, fn(w, it, g))
+    r = proc.run_proc(shape, call_clean, post=lambda w, f, v, facts: proc.ProcResult(shape, "valid", v), world_cls=ProbeWorld,
+                      services="full", max_paths=4)
+    if len(r) != 1 or r[0].kind != "valid" or not isinstance(r[0].detail[1], str):
+        out["kind"] = "unsupported"
+        out["notes"] = ["clean print: %s %s" % (r[0].kind, str(r[0].detail)[:200])]
+        return out
+    n, want_f, want_g = r[0].detail
+    out["clean_calls"] = n
+    for k in range(1, n + 1):
+        def call_inj(w, it, f, k=k):
+            w.wrapping = True
+            w.class_tags = {cls: "P"}
+            g = proc.build_shape(w, second_t)
+            w.fail_tag, w.fail_at = "P", k
+            failed = False
+            try:
+                fn(w, it, f)
+            except AbsRaise as ex:
+                if ex.exc_args != ("injected handler failure",):
+                    raise
+                failed = True
+            w.fail_at = None
+            try:
+                return (failed, fn(w, it, g), fn(w, it, f))
+            except AbsRaise as ex:
+                return (failed, "raises %s" % ex.cls_name, None)
+        rr = proc.run_proc(shape, call_inj, post=lambda w, f, v, facts: proc.ProcResult(shape, "valid", v), world_cls=ProbeWorld,
+                           services="full", max_paths=4)
+        for pr in rr:
+            if pr.kind != "valid":
+                out["notes"].append("injection %d: %s %s" % (k, pr.kind, str(pr.detail)[:160]))
+                continue
+            failed, tg, tf = pr.detail
+            if not failed:
+                continue
+            out["injections"] += 1
+            if tg != want_g or tf != want_f:
+                out["bad"].append((k, "after the printer failed at its handler call %d, the next %s gives %r; a fresh environment gives %r"
+                                   % (k, svc, tg if tg != want_g else tf, want_g if tg != want_g else want_f)))
+    return out
+
+
+_PCACHE2 = {}
+
+
+def print_failure_results(repo, tier="quick"):
+    key = (repo.root, tier)
+    if key not in _PCACHE2:
+        a, b, c = S("a"), S("b"), S("c")
+        x, y = S("x", INT), S("y", INT)
+        f1 = ("And", ("Or", a, b), ("Or", a, b), ("LT", ("Plus", x, y), x))
+        f2 = ("Or", a, b)
+        f3 = ("Implies", ("forall", [("a", BOOL)], ("Or", a, c)), ("Equals", ("Select", ("Array", ("type", INT), ("lit", 0, INT), ("dict", (("lit", 1, INT), x))), y), x))
+        jobs = [(svc, t, f2) for svc in sorted(PRINT_SERVICES) for t in (f1, f3)]
+        _PCACHE2[key] = parallel_map(_print_failure_job, jobs)
+    return _PCACHE2[key]
 
 
 def discover(repo):
